@@ -21,7 +21,7 @@ CC_FLAGS = ["-std=gnu99", "-D_GNU_SOURCE", "-D" + GUARD, "-DCBMC_RUN=1",
 BASE_UNWINDSET = ("assemble_instr.0:16,assemble_const.0:9,assemble_imm.0:9,"
                   "assemble_mem_const.0:5,asm_build_index_tables.0:330,"
                   "asm_build_index_tables.1:40,str_to_instr_key.0:330,"
-                  "str_to_instr_key.1:8,get_opd_format.0:40,check_registers.0:4,"
+                  "str_to_instr_key.1:330,get_opd_format.0:40,check_registers.0:4,"
                   "all_opd_str_to_reg.0:4,all_opd_str_to_reg.1:4,nop_padding.0:12,nop_padding.1:12")
 
 SAFETY = ["--bounds-check", "--pointer-check", "--div-by-zero-check",
@@ -59,6 +59,7 @@ class Lemma:
     expect_fail_prefix: str = "VACUITY"             # obligations that MUST fail (reachability)
     solver: list = field(default_factory=lambda: ["--sat-solver", "cadical"])
     slice: bool = True              # --slice-formula (cone of influence per obligation)
+    gen_h: str = None               # generated per-lemma header, written to the lemma dir and -include'd
     ignore: list = field(default_factory=list)     # regexes of obligation names that are artefacts of evaluating a spec predicate (listed in the evidence)
 
 
@@ -117,7 +118,12 @@ def run_lemma(l, known):
             os.remove(f)
     src = os.path.join(VERIF, "lemmas", l.src)
     defs = ["-D%s=%s" % (k, v) if v is not None else "-D%s" % k for k, v in l.defs.items()]
-    cc = ["goto-cc"] + CC_FLAGS + defs + kf_defs(known) + ["--function", l.entry, src, "-o", a]
+    inc = []
+    if l.gen_h is not None:
+        with open(os.path.join(d, "gen.h"), "w") as f:
+            f.write(l.gen_h)
+        inc = ["-include", os.path.join(d, "gen.h")]
+    cc = ["goto-cc"] + CC_FLAGS + defs + kf_defs(known) + inc + ["--function", l.entry, src, "-o", a]
     t0 = time.time()
     rc, out, err, _ = sh(cc, 120, 8)
     log = "$ " + " ".join(cc) + "\n" + out + err
@@ -246,7 +252,7 @@ def trace_ghosts(trace, names):
     for st in trace:
         if st.get("stepType") != "assignment":
             continue
-        lhs = st.get("lhs", "")
+        lhs = re.sub(r"\[(\d+)l\]", r"[\1]", st.get("lhs", ""))
         base = re.split(r"[.\[]", lhs)[0]
         if base in want or lhs in want:
             v = st.get("value", {})
